@@ -88,10 +88,12 @@ package gates
 //@   ensures len(res.groups) == len(groupStarts) && forall(k, 0, len(groupStarts), res.groups[k].start == groupStarts[k] && res.groups[k].end == groupEnds[k])
 //@   loop 0 invariant -1 <= rangeindex && rangeindex < len(groupStarts) && len(groups) == rangeindex + 1 && forall(k, 0, rangeindex + 1, groups[k].start == groupStarts[k] && groups[k].end == groupEnds[k])
 
+//@ def sel_small(si) = len(si.groups) < 1048576 && forall(k, 0, len(si.groups), si.groups[k].start < 1048576 && si.groups[k].end < 1048576)
 //@ func NewEvaluateGatesChip(api frontend.API, gates []Gate, numGateConstraints uint64, selectorsInfo SelectorsInfo) (res *EvaluateGatesChip)
 //@   props C16
 //@   circuit sound-only
 //@   ensures res.numGateConstraints == numGateConstraints
+//@   ensures len(res.selectorsInfo.groups) == len(selectorsInfo.groups) && forall(k, 0, len(selectorsInfo.groups), res.selectorsInfo.groups[k] == selectorsInfo.groups[k])
 
 // ------------------------------------------------------------------ gate evaluators (C15)
 // Each EvalUnfiltered is proved equal, constraint by constraint, to the gate polynomial of plonky2
@@ -319,9 +321,15 @@ package gates
 //@   loop 0 invariant forall(k, 0, rangeindex + 1, unfiltered[k] == qe_mulo(atentry(unfiltered, 0)[k], filter))
 //@   loop 0 invariant forall(k, rangeindex + 1, len(unfiltered), unfiltered[k] == atentry(unfiltered, 0)[k])
 
+// The combined evaluation: every gate of the circuit contributes (loop 1 calls evalFiltered in every iteration) and
+// its filtered constraints are added position-wise into a vector of numGateConstraints canonical values.  The closed
+// form of the sum over gates is not stated (it needs a ghost sequence of per-gate vectors).
 //@ func (g *EvaluateGatesChip) EvaluateGateConstraints(vars EvaluationVars) (res []gl.QuadraticExtensionVariable)
-//@   props C15
-//@   circuit
-//@   flag trusted
-//@   requires canonQEs(vars.localConstants) && canonQEs(vars.localWires)
+//@   props C15 C01
+//@   circuit sound-only
+//@   requires canonQEs(vars.localConstants) && canonQEs(vars.localWires) && g.numGateConstraints <= 4294967296 && sel_small(g.selectorsInfo)
 //@   ensures len(res) == g.numGateConstraints && canonQEs(res)
+//@   loop 0 invariant -1 <= rangeindex && rangeindex < g.numGateConstraints && len(constraints) == g.numGateConstraints && forall(k, 0, rangeindex + 1, canonQE(constraints[k]))
+//@   loop 1 calls gates.EvaluateGatesChip.evalFiltered
+//@   loop 1 invariant -1 <= rangeindex1 && rangeindex1 < len(g.gates) && len(constraints) == g.numGateConstraints && canonQEs(constraints) && chipok(glApi)
+//@   loop 2 invariant -1 <= rangeindex2 && rangeindex2 < len(gateConstraints) && len(constraints) == g.numGateConstraints && canonQEs(constraints) && canonQEs(gateConstraints) && chipok(glApi)
